@@ -236,6 +236,26 @@ func c11Scenario(h *H, root string, ti int) {
 				}
 				return nil
 			}
+		case "loadfail":
+			// persistent Load error on the j-th loaded file
+			var victim *backend.Handle
+			loads := 0
+			rec.FailOp = func(op string, hd backend.Handle, nth int) error {
+				if op != "load" {
+					return nil
+				}
+				if victim == nil {
+					if loads == r.at {
+						v := hd
+						victim = &v
+					}
+					loads++
+				}
+				if victim != nil && hd == *victim {
+					return errInjected
+				}
+				return nil
+			}
 		case "cancel":
 			rec.FailOp = func(op string, hd backend.Handle, nth int) error {
 				if (op == "save" || op == "remove") && nth == r.at+1 {
@@ -273,6 +293,15 @@ func c11Scenario(h *H, root string, ti int) {
 	}
 	for j := h.Intn(step); j < n; j += step {
 		runs = append(runs, c11Run{"cancel", j})
+	}
+	nLoads := 0
+	for _, e := range rec0.Events {
+		if e.Op == "load" {
+			nLoads++
+		}
+	}
+	for j := h.Intn(step * 2); j < nLoads && j < 40; j += step * 2 {
+		runs = append(runs, c11Run{"loadfail", j})
 	}
 	for _, r := range runs {
 		rec, res, be := exec(r)
